@@ -415,6 +415,59 @@ def m_gc_ptr_eq(ex, st, callee, args):
     return [(None, Sc("bool", z3.BoolVal((ra.cell, ra.path) == (rb.cell, rb.path))))]
 
 
+def m_gc_as_ref(ex, st, callee, args):
+    """<Gc<T> as AsRef<T>>::as_ref / Borrow: a reference to the pointee"""
+    return [(None, _gc(ex, st, args[0]).fields[0])]
+
+
+def m_option_ok_or(ex, st, callee, args):
+    from models import ok, err
+    v = args[0]
+    if not (isinstance(v, Adt) and v.ty == "Option"):
+        raise Inconclusive("Option::ok_or on %r" % (v,))
+    return [(None, ok(v.fields[0]) if v.variant == "Some" else err(args[1]))]
+
+
+def m_option_string_as_deref(ex, st, callee, args):
+    v = _val(ex, st, args[0], depth=2) if isinstance(args[0], Ref) else args[0]
+    if not (isinstance(v, Adt) and v.ty == "Option"):
+        raise Inconclusive("Option::as_deref on %r" % (v,))
+    return [(None, v)]
+
+
+def m_option_map_closure(ex, st, callee, args):
+    """Option::map(closure): Some(f(x)) / None"""
+    from sym import Invoke
+    v = args[0]
+    if not (isinstance(v, Adt) and v.ty == "Option"):
+        raise Inconclusive("Option::map on %r" % (v,))
+    if v.variant == "None":
+        return [(None, NONE)]
+    fn = ex.closure_fn(callee)
+    if fn is None:
+        raise Inconclusive("no MIR item for the closure in " + callee)
+    return [(None, Invoke(fn, [args[1], v.fields[0]], lambda st2, val: some(val)))]
+
+
+def m_option_string_eq(ex, st, callee, args):
+    from strmodels import to_sstr
+    a_, b_ = _val(ex, st, args[0]), _val(ex, st, args[1])
+    if not all(isinstance(x, Adt) and x.ty == "Option" for x in (a_, b_)):
+        raise Inconclusive("Option<String> comparison of %r and %r" % (a_, b_))
+    if a_.variant != b_.variant:
+        r = z3.BoolVal(False)
+    elif a_.variant == "None":
+        r = z3.BoolVal(True)
+    else:
+        x, y = to_sstr(ex, st, a_.fields[0]), to_sstr(ex, st, b_.fields[0])
+        if x is None or y is None:
+            raise Inconclusive("Option<String> comparison of abstract strings")
+        r = z3.BoolVal(False) if len(x.fields) != len(y.fields) else (z3.And(*[p.e == q.e for p, q in zip(x.fields, y.fields)]) if x.fields else z3.BoolVal(True))
+    if callee.endswith("::ne"):
+        r = z3.Not(r)
+    return [(None, Sc("bool", z3.simplify(r)))]
+
+
 def m_as_slice(ex, st, callee, args):
     return [(None, args[0])]
 
@@ -524,7 +577,12 @@ def install(m):
         (r"^Option::<.*>::filter::<", m_option_filter),
         (r"^<\[.*\] as PartialEq>::(eq|ne)$|^<Vec<.*> as PartialEq>::(eq|ne)$|^core::slice::cmp::<impl PartialEq<\[.*\]> for \[.*\]>::(eq|ne)$", m_slice_eq),
         (r"^<Gc<GcCell<Vec<.*>>> as PartialEq>::(eq|ne)$", m_gc_vec_eq),
+        (r"^Option::<.*>::ok_or::<", m_option_ok_or),
+        (r"^Option::<.*>::map::<.*\{closure@", m_option_map_closure),
+        (r"^<Option<String> as PartialEq>::(eq|ne)$", m_option_string_eq),
+        (r"^Option::<String>::as_deref$", m_option_string_as_deref),
         (r"^Gc::<.*>::ptr_eq$", m_gc_ptr_eq),
+        (r"^<Gc<.*> as (AsRef|Borrow)<.*>>::(as_ref|borrow)$", m_gc_as_ref),
         (r"^Vec::<.*>::as_slice$", m_as_slice),
         (r"^<std::slice::Iter<'_, .*> as Iterator>::zip::<", m_zip),
         (r"^<Zip<.*> as Iterator>::(all|any)::<", m_zip_all_any),
